@@ -304,7 +304,7 @@ Definition corr_one (e : env) (c : cfg) (g : list hcase) : verdict :=
   let ds := map (model_diff e c) g in
   match first_some (map fst ds) 0 with
   | Some (hi, i) => V_mismatch (hi * 10000 + i)
-  | None => if existsb snd ds then V_domain 2 else V_ok
+  | None => V_ok
   end.
 
 (** first allowed configuration that reproduces the group (searched lazily): (verdict, index) *)
